@@ -4,6 +4,13 @@ import HugrVerif.Qsys
 namespace HugrVerif.Qsys
 open HugrVerif.Py
 
+/-- Decidable equality of outcomes (for the closed `example`s in `Props/C19.lean`). -/
+instance instDecEqExcept {ε α : Type} [DecidableEq ε] [DecidableEq α] : DecidableEq (Except ε α)
+  | .ok a, .ok b => if h : a = b then isTrue (by rw [h]) else isFalse (by intro h'; cases h'; exact h rfl)
+  | .error a, .error b => if h : a = b then isTrue (by rw [h]) else isFalse (by intro h'; cases h'; exact h rfl)
+  | .ok _, .error _ => isFalse (by intro h; cases h)
+  | .error _, .ok _ => isFalse (by intro h; cases h)
+
 /-! ### A. The tag matcher -/
 
 /-- The declarative reading of `^([a-z][\w_]*)\[(\d+)\]$` under `re.match` (ASCII):
